@@ -130,6 +130,10 @@ class EachScheduling:
     def remove_node(self, node: WorkerController) -> str | None:
         # KeyError if we didn't get an add_node() yet
         pending = self.node2pending.pop(node)
+        if not self.collection_is_completed:
+            # Not all initial collections are in yet: the replacement of this
+            # node has to report a collection in its place.
+            self.node2collection.pop(node, None)
         if not pending:
             return None
         crashitem = self.node2collection[node][pending.pop(0)]
